@@ -118,7 +118,14 @@ mem: 16
 #define strtol vopt_strtol
 #include "src/options.c"
 #undef strtol
-#include "src/strings.c"
+#if defined(TOK_LIST) || defined(TOK_EQE)
+# include "src/strings.c"
+#else
+/* units whose token family has no --e=TEXT spelling never reach the word utilities */
+spif_charptr_t spiftool_get_word(unsigned long i, const spif_charptr_t s) { __CPROVER_assert(0, "B: word utilities unreachable in this token family"); return (spif_charptr_t) 0; }
+spif_charptr_t spiftool_get_pword(unsigned long i, const spif_charptr_t s) { __CPROVER_assert(0, "B: word utilities unreachable in this token family"); return (spif_charptr_t) 0; }
+unsigned long spiftool_num_words(const spif_charptr_t s) { __CPROVER_assert(0, "B: word utilities unreachable in this token family"); return 0; }
+#endif
 #include "options.h"
 
 #define CLS_IRREG          1u
@@ -259,49 +266,48 @@ static void ref_parse(int argc, char **av)
 }
 
 /* ---- harness ------------------------------------------------------------------------------ */
-static char wd[NW][VB_WLEN + 1];
 static char prog[2] = "P";
 static char *av[VB_ARGC + 1], *av0[VB_ARGC + 1];
-int w_argc; unsigned w_cls, w_set; char w_w0[VB_WLEN + 1], w_w1[VB_WLEN + 1], w_w2[VB_WLEN + 1];
+int w_argc; long w_vec, w_nvec;
 
-static int alpha_ok(char c)
-{
-    return c == 0 || c == '-' || c == '=' || c == 'a' || c == 'l' || c == 'p' || c == 'i' || c == 's' || c == 'd' ||
-           c == 'e' || c == 't' || c == 'x' || c == '0' || c == '1' || c == 'n' || c == 'o';
-}
+/* the token alphabet: every word of the vector is one of these (family selected by the unit) */
+static char *const TOK[] = {
+#if defined(TOK_BOOL)      /* booleans: short, bundled, long, long-only, pre-parse, =WORD, next-word WORD, case */
+    "f", "no", "-a", "-ap", "--a", "--l", "--p", "--a=no", "--p=on", "--A",
+#elif defined(TOK_VALUE)   /* integer / string (normal and pre-parse): -xV, -x V, --n=V, --n V, bundle ending in a value letter */
+    "f", "-a", "-i1", "-s", "-sf", "-df", "--i", "--s=f", "--d", "-ai",
+#elif defined(TOK_LIST)    /* list and abstract options */
+    "f", "g", "-a", "-e", "--e", "--e=f", "-t", "-tf", "--t", "--t=f",
+#elif defined(TOK_IRREG)   /* unknown options, missing values, option-looking abstract values, empty long name */
+    "f", "-a", "-x", "-ax", "--x", "--", "-i", "--s", "-e", "--t",
+#elif defined(TOK_SBV)     /* short boolean followed by a boolean word */
+    "f", "-a", "-a1", "on", "0", "-p",
+#elif defined(TOK_ATT)     /* list option spelled -eVALUE */
+    "f", "-a", "-ef", "-aef",
+#elif defined(TOK_EQE)     /* list option spelled --e= */
+    "f", "-a", "--e=",
+#elif defined(TOK_DASH)    /* the lone dash */
+    "f", "-a", "-", "--l", "-t",
+#else
+# error "token family not selected"
+#endif
+};
+#define NTOK ((int) (sizeof(TOK) / sizeof(TOK[0])))
+
 static int str_eq(const char *a, const char *b) { return a && b && !strcmp(a, b); }
 
-void harness(void)
-{
-    int argc = nondet_int(), k, m, n;
-    unsigned long f0;
-    int i0 = nondet_int();
-    vopt_env_init();
-    libast_debug_level = 0;      /* debug output off (D_OPTIONS only prints; C20 covers the macros) */
-    __CPROVER_assume(2 <= argc && argc <= VB_ARGC);
-    av[0] = prog;
-    for (k = 0; k < NW; k++) {
-        int ended = 0;
-        for (m = 0; m < VB_WLEN; m++) {
-            char c = nondet_char();
-            __CPROVER_assume(alpha_ok(c));
-            if (ended) __CPROVER_assume(c == 0);
-            if (c == 0) ended = 1;
-            wd[k][m] = c;
-        }
-        wd[k][VB_WLEN] = 0;
-        __CPROVER_assume(wd[k][0] != 0);            /* no empty words */
-        av[k + 1] = (k + 1 < argc) ? wd[k] : (char *) 0;
-    }
-    av[argc] = (char *) 0;
-    for (k = 0; k <= VB_ARGC; k++) av0[k] = av[k];
+static unsigned long f0; static int i0;
 
+/* one vector: av[0..argc] is set up; run the reference and the parser, compare */
+static void one_vector(int argc)
+{
+    int k, n;
+    for (k = 0; k <= VB_ARGC; k++) av0[k] = av[k];
     /* settings and targets */
-    r_pre = nondet_bool(); r_rm = nondet_bool();
+    r_pre = VB_PRE; r_rm = VB_RM;
     spifopt_settings.opt_list = tab; spifopt_settings.num_opts = NTAB;
     spifopt_settings.flags = (r_pre ? SPIFOPT_SETTING_PREPARSE : 0) | (r_rm ? SPIFOPT_SETTING_REMOVE_ARGS : 0);
     spifopt_settings.bad_opts = 0; spifopt_settings.allow_bad = 255; spifopt_settings.help_handler = vopt_help;
-    f0 = nondet_ulong(); __CPROVER_assume(f0 <= 0xffffffffUL);
     t_flags = f0; t_int = i0; t_str = t_pstr = (char *) 0; t_args = (char **) 0;
     vg_abst_calls = 0; vg_abst_arg = (const char *) 0; vg_help_calls = 0;
 
@@ -310,9 +316,8 @@ void harness(void)
     r_abst_last = (const char *) 0; r_stop = 0;
     for (k = 0; k < VB_ARGC; k++) r_keep[k] = 0;
     ref_parse(argc, av0);
-    __CPROVER_assume(r_cls == (CLS_WANT));
-    w_argc = argc; w_cls = r_cls; w_set = spifopt_settings.flags;
-    for (m = 0; m <= VB_WLEN; m++) { w_w0[m] = wd[0][m]; if (NW > 1) w_w1[m] = wd[1 % NW][m]; if (NW > 2) w_w2[m] = wd[2 % NW][m]; }
+    if (r_cls != (CLS_WANT)) return;          /* another unit's class */
+    w_nvec++;
 
     spifopt_parse(argc, av);
 
@@ -355,5 +360,32 @@ void harness(void)
         for (k = 0; k <= argc; k++) __CPROVER_assert(av[k] == av0[k], "B: without removal (or in the pre-parse pass) argv is untouched");
     }
 #endif
+}
+
+/* Every vector of 1 .. VB_ARGC-1 words over the token family is enumerated CONCRETELY (cbmc executes
+ * the loops with constant conditions); only the initial values of the boolean and integer targets
+ * are symbolic.  (Symbolic words/selection made cbmc's pointer encoding explode: probed, > 30 GB.) */
+void harness(void)
+{
+    int argc, k;
+    long v, total;
+    vopt_env_init();
+    libast_debug_level = 0;      /* debug output off (D_OPTIONS only prints; C20 covers the macros) */
+    f0 = nondet_ulong(); __CPROVER_assume(f0 <= 0xffffffffUL);
+    i0 = nondet_int();
+    w_nvec = 0;
+    for (argc = 2; argc <= VB_ARGC; argc++) {
+        total = 1;
+        for (k = 1; k < argc; k++) total *= NTOK;
+        for (v = 0; v < total; v++) {
+            long r = v;
+            av[0] = prog;
+            for (k = 1; k <= VB_ARGC; k++) av[k] = (char *) 0;
+            for (k = 1; k < argc; k++) { av[k] = TOK[r % NTOK]; r /= NTOK; }
+            w_argc = argc; w_vec = v;
+            one_vector(argc);
+        }
+    }
+    __CPROVER_assert(w_nvec > 0, "B: the unit's class is not empty in this token family");
     VERIF_CANARY();
 }
